@@ -185,6 +185,20 @@ def rsa_fermat(r, bits=2048):
   return rsa_art(p * q, fam="close_primes", expect=["CheckFermat"])
 
 
+def rsa_fermat_deep(r, bits=2048, steps=None):
+  """Close primes that need thousands of Fermat steps (still far below the
+  documented default of 100000): found in a fresh process with the default
+  bound, and a good probe for bounds that drift."""
+  import math
+  steps = steps or r.randint(1500, 60000)
+  p = rand_prime(r, bits // 2)
+  # Fermat needs about (p - q)^2 / (8 sqrt(n)) steps
+  gap = int(math.isqrt(8 * p * steps))
+  q = int(gmpy2.next_prime(p + gap))
+  return rsa_art(p * q, fam="close_primes_deep", steps=steps,
+                 expect=["CheckFermat"])
+
+
 def rsa_short(r, bits=None):
   bits = bits or r.choice([512, 768, 1024, 1536])
   a = rsa_healthy(r, bits)
@@ -314,6 +328,11 @@ def rsa_degenerate(r, kind, bits=2048):
   elif kind == "oddlen":
     b = r.choice([65, 127, 1023, 2047, 2049])
     n = rand_prime(r, b // 2) * rand_prime(r, b - b // 2)
+  elif kind == "randlen":
+    b = r.randint(64, 1300)
+    n = rand_prime(r, b // 2) * rand_prime(r, b - b // 2)
+    while n < 2**63:
+      n = rand_prime(r, 32) * rand_prime(r, 33)
   elif kind == "cube":
     n = rand_prime(r, bits // 3) ** 3
   elif kind == "three_primes":
@@ -331,7 +350,7 @@ def rsa_degenerate(r, kind, bits=2048):
 
 DEGENERATE_KINDS_CHEAP = ("prime", "square", "even", "pow2_small", "allones",
                           "m64", "min", "oddlen", "cube", "three_primes",
-                          "unbalanced")
+                          "unbalanced", "randlen", "randlen")
 
 
 # ----------------------------------------------------------------------------
@@ -412,6 +431,19 @@ def ec_small_diff_pair(r, c, max_diff, inside=True):
     a1["truth"]["expect"] = ["CheckECKeySmallDifference"]
     a2["truth"]["expect"] = ["CheckECKeySmallDifference"]
   return [a1, a2]
+
+
+def ec_small_diff_chain(r, c, max_diff):
+  """Three keys d-m, d, d+m with m < max_diff <= 2m: the middle key is close
+  to both outer keys, which are not close to each other."""
+  m = r.randint(max_diff // 2 + 1, max_diff - 1) if max_diff > 3 else 1
+  d = r.randrange(2**64, int(c.n) - 2**64)
+  out = []
+  for role, dd in (("lo", d - m), ("mid", d), ("hi", d + m)):
+    a = ec_from_priv(c, dd, "small_diff_chain", delta=m, role=role,
+                     expect=["CheckECKeySmallDifference"])
+    out.append(a)
+  return out
 
 
 def ec_invalid(r, c, kind):
